@@ -287,6 +287,42 @@ def rule_verbose_regions(prog, fixture=False):
                       "with --verbose" % (desc, msg))
             else:
                 r.add(key, f.loc(anchor), True, "effect-free (%s)" % desc)
+        # `if (!verbose) <leave>;  <diagnostics>`: the verbose path must leave the same way after its diagnostics
+        for n in f.walk():
+            if n.get("k") != "IfStmt" or "else" in n.get("parts", {}):
+                continue
+            cond = n["c"][n["parts"]["cond"]]
+            if not any(a[0] == "T" and a[2] is True and vx.is_verbose(f, a[1]) for a in atomise(cond, False)):
+                continue
+            then = n["c"][n["parts"]["then"]]
+            last = then
+            while last is not None and last.get("k") == "CompoundStmt" and last.get("c"):
+                last = last["c"][-1]
+            if last is None or last.get("k") not in ("ContinueStmt", "BreakStmt", "ReturnStmt", "GotoStmt"):
+                continue
+            par = f.parent(n)
+            rest = []
+            if par is not None and par.get("k") == "CompoundStmt":
+                idx = [i for i, s_ in enumerate(par["c"]) if s_ is n][0]
+                rest = par["c"][idx + 1:]
+            end = rest[-1] if rest else None
+            while end is not None and end.get("k") == "CompoundStmt" and end.get("c"):
+                end = end["c"][-1]
+            same = end is not None and end.get("k") == last.get("k") and \
+                (last.get("k") != "ReturnStmt" or show(end) == show(last))
+            # falling off the end of the function body is `return;`, off the end of a loop body is `continue`
+            if not same and par is not None:
+                gp = f.parent(par)
+                if last.get("k") == "ReturnStmt" and not last.get("c") and par is f.body:
+                    same = True
+                if last.get("k") == "ContinueStmt" and gp is not None and gp.get("k") in ("ForStmt", "WhileStmt", "DoStmt", "CXXForRangeStmt") \
+                        and gp.get("parts", {}).get("body") is not None and gp["c"][gp["parts"]["body"]] is par:
+                    same = True
+            k += 1
+            r.add("%s::%s::verbose-exit#%d" % (f.relfile(), f.qn, k), f.loc(n), same,
+                  "both paths leave with `%s`" % show(last)[:30] if same else
+                  "without --verbose control leaves here (`%s`), with --verbose it runs on past the diagnostics: the two "
+                  "runs take different paths through the code that follows" % show(last)[:30])
         # any other *use* of a verbose expression (not as a pure condition / pass-through argument)
         for n in f.walk():
             if n.get("k") == "DeclRefExpr" and vx.is_verbose(f, n):
